@@ -18,7 +18,12 @@ META = {
                    '(row flushed while the lock is believed held, 1d8733c) one row per finished work package is proved for every '
                    'interleaving of the pylocker protocol without time-out; it stays REFUTED by the 10 s time-out (known finding, '
                    'reproduced on the real code); the code before 1d8733c is kept as lrun_pinned with its _refuted theorem (double '
-                   'acquisition loses a row) and its interleaving is forced on real work packages on every run. Tied to the current work_package by observed runs: numpy calls made vs the modelled '
+                   'acquisition loses a row) and its interleaving is forced on real work packages on every run. The settings-file reader and the '
+                   "'#' feature are modelled on strings: INPUT/OUTPUT lines are kept in file order, a line without comma is an error, a "
+                   'distribution word fires at most one distribution (one numpy call per INPUT line, in order), the # value comes from the '
+                   'FIRST base-file line that starts with the name - which is the value the simulator uses only when no other line starts '
+                   'with that name (REFUTED for a repeated parameter and for a longer name with the same beginning: two known findings, '
+                   'reproduced on the real driver). Tied to the current work_package by observed runs: numpy calls made vs the modelled '
                    'dispatch, seeding discipline vs observed duplicate pattern, supports and row count evaluated by Coq-defined '
                    'checkers on the rows of real runs with 1..16 workers.'),
     'level_note': ('Trusted: Coq kernel + vm_compute; the Python harness that wraps work_package / np.random / Locker with '
@@ -29,19 +34,23 @@ META = {
     'rule': ('settings files drawn from one PRNG: 2-6 INPUT lines over normal/uniform/triangular/lognormal/binomial (both comma '
              'styles), 1-4 OUTPUT lines, HIP-RA-X base; real MC_GeoPHIRES3.main runs with os.cpu_count patched to W in '
              '{1,2,4,16} (thorough: more settings, up to 400 iterations), plus corpus seeds: fork-copy witness, two forced lock interleavings on '
-             'real work packages and a run into a directory holding the stale lock of a dead process; a '
+             'real work packages, a run into a directory holding the stale lock of a dead process, two base files on which the # value is not the '
+             "simulator's; 30% of the inputs take a parameter from the base file (#), one settings file per run names its own MC_OUTPUT_FILE and "
+             'uses all five distributions; supports are evaluated in Coq on every value of every row and on the draws of row-less work packages; a '
              'run is non-trivial when at least two workers executed tasks; distinct = distinct (W, distributions used) signatures; '
              'evaluations = sampled values + rows + numpy calls checked'),
     'trusted_base': ['Coq 8.16.1 kernel + vm_compute (no native_compute)',
                      'all C13 theorems: Closed under the global context (no axioms)',
                      'hand-written model coq/Model/MonteCarlo.v tied to MC_GeoPHIRES3.work_package/main by observed real runs '
                      '(tools/lib/mc_driver.py, tools/lib/mcharness.py, tools/props/C13.py: unverified Python)'],
-    'modelled': ['MC_GeoPHIRES3.work_package (seeding, distribution dispatch, guarded append)', 'pylocker.Locker acquire/release protocol',
+    'modelled': ['MC_GeoPHIRES3.work_package (seeding, distribution dispatch, guarded append)', 'MC_GeoPHIRES3.main (settings-file reader)',
+                 'MC_GeoPHIRES3.check_and_replace_mean', 'pylocker.Locker acquire/release protocol',
                  'numpy.random legacy transforms (uniform, triangular, binomial) from their documentation', 'fork of pool workers'],
     'assumptions': ['np.random.seed() without argument yields pairwise distinct seeds (OS entropy)',
                     'equal raw draws is the only way two continuous samples coincide (generator quality not modelled)',
                     'sqrt is non-negative, monotone and inverts squaring (premise of the triangular support theorem)'],
-    'fingerprint': [('src/geophires_monte_carlo/MC_GeoPHIRES3.py', 'work_package'), ('src/geophires_monte_carlo/MC_GeoPHIRES3.py', 'main')],
+    'fingerprint': [('src/geophires_monte_carlo/MC_GeoPHIRES3.py', 'work_package'), ('src/geophires_monte_carlo/MC_GeoPHIRES3.py', 'main'),
+                    ('src/geophires_monte_carlo/MC_GeoPHIRES3.py', 'check_and_replace_mean')],
 }
 LOCK_WHAT = {'lock-double-acquire': "pylocker let two workers hold the lock and the release of this one was refused: its row was not flushed "
                                     "while the lock was held (regression of 1d8733c)",
@@ -255,7 +264,7 @@ def pool_specs(ctx):
                 + [(4, 40, mc.make_settings(rnd, 40, inputs=every, n_outputs=2, output_file='{JOBDIR}/named_by_settings.txt'))])
     specs = [(W, n, mc.make_settings(rnd, n, hash_share=0.3)) for W in (1, 2, 3, 4, 8, 16) for n in (40, 300)]
     specs.append((4, 60, mc.make_settings(rnd, 60, inputs=every, n_outputs=2, output_file='{JOBDIR}/named_by_settings.txt')))
-    return specs + [(rnd.choice([2, 3, 5, 7, 12, 16]), rnd.choice([7, 60, 150, 400]), mc.make_settings(rnd, 1, hash_share=0.3)) for _ in range(40)]
+    return specs + [(rnd.choice([2, 3, 5, 7, 12, 16]), rnd.choice([7, 60, 150, 400]), mc.make_settings(rnd, 1, hash_share=0.3)) for _ in range(24)]
 
 
 def correspondence(ctx, proofs_ok=True):
